@@ -596,6 +596,27 @@ func rioDamage(c *Ctx, rc rioCase, tape *simrt.Tape, count bool) (vs []rioV, eva
 				return
 			}
 		}
+		// the same cut file consumed with a mix of ReadNext and SkipNext (the case's skip mask): every record that a
+		// read returns must be the one written at that position (skips move the position, they return nothing)
+		if rc.SkipMask != 0 {
+			if pos, got, ok := mixedPass(dmg, rc.ReadBuf, rc.SkipMask); ok {
+				for j, b := range got {
+					p := pos[j]
+					if p >= len(live) || !sameRec(b, live[p]) {
+						want := "nothing (end of file)"
+						if p < len(live) {
+							want = recDesc(live[p].payload)
+						}
+						add("truncation|read-skip-mix-returned-non-genuine-record", fmt.Sprintf("file cut to %d of %d bytes, read/skip mask %x: the read at position %d returned %s, written at that position: %s", L, len(orig), rc.SkipMask, p, recDesc(b), want))
+						return
+					}
+					if p >= complete {
+						add("truncation|read-skip-mix-returned-incomplete-record", fmt.Sprintf("file cut to %d of %d bytes, read/skip mask %x: position %d is not completely contained (%d are) but a read returned %s", L, len(orig), rc.SkipMask, p, complete, recDesc(b)))
+						return
+					}
+				}
+			}
+		}
 		// random access at the original offsets
 		if L >= recordio.FileHeaderSizeBytes {
 			mm, err := recordio.NewMemoryMappedReaderWithPath(dmg)
@@ -797,6 +818,39 @@ func skipThenRead(path string, readBuf, n int) (after [][]byte, skipErr error, o
 			return after, nil, true
 		}
 	}
+}
+
+// mixedPass consumes the file with SkipNext where the mask has a one bit at the record's position (mod 64) and ReadNext
+// elsewhere, until the first error or end of file. It returns the positions and payloads of the reads.
+func mixedPass(path string, readBuf int, mask uint64) (pos []int, got [][]byte, ok bool) {
+	defer func() {
+		if r := recover(); r != nil {
+			ok = true
+		}
+	}()
+	rd, err := recordio.NewFileReader(recordio.ReaderPath(path), recordio.ReaderBufferSizeBytes(readBuf))
+	if err != nil {
+		return nil, nil, false
+	}
+	defer rd.Close()
+	if err := rd.Open(); err != nil {
+		return nil, nil, false
+	}
+	for p := 0; p < 10000; p++ {
+		if mask&(1<<(uint(p)%64)) != 0 {
+			if err := rd.SkipNext(); err != nil {
+				return pos, got, true
+			}
+			continue
+		}
+		b, err := rd.ReadNext()
+		if err != nil {
+			return pos, got, true
+		}
+		pos = append(pos, p)
+		got = append(got, b)
+	}
+	return pos, got, true
 }
 
 func rioRun(c *Ctx, rc rioCase, tape *simrt.Tape, count bool) ([]rioV, int) {
